@@ -4,7 +4,7 @@
     {"i":"12"} {"f":"1e-05"} {"b":true} {"n":null} {"s":"…"} {"d":[[key,val],…]} {"l":[…]}
 -/
 import Lean.Data.Json
-import DictIO
+import DictIO.ModelAll
 
 open Lean
 
